@@ -357,6 +357,12 @@ func (x *Exec) instr(st *State, fr *Frame, b *ssa.BasicBlock, i int, in ssa.Inst
 		})
 		return true
 	case *ssa.If:
+		if j := silentDiamond(b); j != nil {
+			// both branches only log: skip them without forking
+			x.note(&x.abstract, "branches that only call the logger are skipped (their argument evaluation is assumed not to panic)")
+			x.enterBlock(st, b, j)
+			return true
+		}
 		c := x.get(st, fr, v.Cond).(Term)
 		switch c.S {
 		case "true":
@@ -1124,6 +1130,15 @@ func (x *Exec) havocLoop(st *State, fr *Frame, header *ssa.BasicBlock, spec *Loo
 			c.V = st.freshVal("hv."+c.name, c.T)
 		}
 	}
+	// iteration state of `range` over maps started before the loop
+	for _, rs := range fr.rangeIter {
+		nv := st.fresh("visited", ArrSort(SI, SB))
+		has := st.mapHas(rs.m, rs.ktype, rs.vtype)
+		x.counter++
+		q := Term{fmt.Sprintf("q.k!%d", x.counter), SI}
+		st.assume(Forall([]Term{q}, Imp(Sel(nv, q), Sel(has, q))))
+		rs.visited = nv
+	}
 	x.havocLocs(st, fr, spec.Modifies, nil)
 }
 
@@ -1267,4 +1282,85 @@ func funcKey(fn *ssa.Function) string {
 		return fmt.Sprintf("%s.(%s%s).%s%s", pkg, star, name, mname, bound)
 	}
 	return pkg + "." + o.Name()
+}
+
+
+// silentBlock: the block only evaluates arguments for and calls the logger, then jumps on.
+func silentBlock(b *ssa.BasicBlock) (*ssa.BasicBlock, bool) {
+	if len(b.Succs) != 1 || len(b.Preds) != 1 {
+		return nil, false
+	}
+	defined := map[ssa.Value]bool{}
+	for _, in := range b.Instrs {
+		switch v := in.(type) {
+		case *ssa.DebugRef, *ssa.Jump:
+		case *ssa.Alloc:
+			if v.Comment != "varargs" {
+				return nil, false
+			}
+			defined[v] = true
+		case *ssa.IndexAddr:
+			if !defined[v.X] {
+				return nil, false
+			}
+			defined[v] = true
+		case *ssa.Store:
+			if !defined[v.Addr] {
+				return nil, false
+			}
+		case *ssa.MakeInterface, *ssa.FieldAddr, *ssa.Field, *ssa.Convert, *ssa.ChangeType, *ssa.Slice, *ssa.Extract:
+			// pure
+		case *ssa.UnOp:
+			if v.Op.String() != "*" {
+				return nil, false
+			}
+		case *ssa.Call:
+			if !v.Call.IsInvoke() || ifaceKey(v.Call.Value.Type(), v.Call.Method.Name()) == "" || !strings.HasPrefix(ifaceKey(v.Call.Value.Type(), ""), "logger.Logger.") {
+				return nil, false
+			}
+		default:
+			return nil, false
+		}
+	}
+	// values defined here must not be used elsewhere
+	for _, in := range b.Instrs {
+		if val, ok := in.(ssa.Value); ok {
+			if refs := val.Referrers(); refs != nil {
+				for _, r := range *refs {
+					if r.Block() != b {
+						return nil, false
+					}
+				}
+			}
+		}
+	}
+	return b.Succs[0], true
+}
+
+// silentDiamond: an If whose branches are logger-only and rejoin.
+func silentDiamond(b *ssa.BasicBlock) *ssa.BasicBlock {
+	if len(b.Succs) != 2 {
+		return nil
+	}
+	t, f := b.Succs[0], b.Succs[1]
+	tj, tok := silentBlock(t)
+	fj, fok := silentBlock(f)
+	var j *ssa.BasicBlock
+	switch {
+	case tok && fok && tj == fj:
+		j = tj
+	case tok && tj == f:
+		j = f
+	case fok && fj == t:
+		j = t
+	default:
+		return nil
+	}
+	for _, in := range j.Instrs {
+		if _, isPhi := in.(*ssa.Phi); isPhi {
+			return nil
+		}
+	}
+	// the condition value itself may have been computed by calls before; that is fine
+	return j
 }
